@@ -206,11 +206,7 @@ def run_real(case):
             bound = True
         except Exception as e:  # a fault
             err = e
-        regs = {}
-        for bank, grp in ex._registers[0].items():
-            for idx, v in grp._register.items():
-                if v is not None:
-                    regs[f"{bank.name}{idx}"] = v
+        regs = sim.read_registers(ex, 0)
         um = ex._qubit_unit_modules[0]
         results.append(
             {
@@ -223,7 +219,7 @@ def run_real(case):
                 "used_phys": sorted(ex._used_physical_qubit_addresses),
                 "ret_log": list(ex.ret_log),
                 "shared_arrays": {a: list(v) for a, v in sorted(ex._shared_memories[0]._arrays._arrays.items())},
-                "shared_regs": {f"{bank.name}{i}": v for bank, grp in ex._shared_memories[0]._registers.items() for i, v in grp._register.items() if v is not None},
+                "shared_regs": sim.read_shared_registers(ex._shared_memories[0]),
             }
         )
     return results
